@@ -442,6 +442,9 @@ func (t *tree) parseSwitch(token item, end itemType) ast.Node {
 		case end:
 			t.expect(itemRightDelim, ctx)
 			return &ast.SwitchNode{token.pos, switchValue, cases}
+		case itemComment: // comments between the cases are ignored
+		default:
+			t.unexpected(tok, "between switch cases")
 		}
 	}
 }
